@@ -61,6 +61,7 @@ class FsMixin:
 
     def fs_effect(self, st, name, args, lineno):
         st.trace.append(Effect(name, args, lineno, st.copy()))
+        self.on_effect(st, st.trace[-1])
 
     def split(self, st, cond, yes, no):
         """two-way outcome split on a z3 condition"""
